@@ -2,8 +2,8 @@
    LockImageConfiguration / apko lock / apko build --lockfile, compared with the
    model (mismatch:...) and judged by the validators of Spec/LockSpec.v (viol:...). *)
 From Apko Require Export Base.Prelude Base.Regex Base.C12Lib Model.Version Model.Lock Spec.LockSpec
-  Generated.C09Lock.
-From Apko Require Model.Resolver.
+  Generated.C09Lock Model.LockArchOrder.
+From Apko Require Model.Resolver Model.LockBuild.
 Open Scope string_scope. Open Scope list_scope.
 
 (* ---- stage "unify": unify through the verif hook ----------------------------- *)
@@ -193,8 +193,22 @@ Definition member_disqualified_by_entry (ps : list opkg) : bool :=
               | pv => version_ok (resolve_constraint (p_name (q_pkg q) ++ "=" ++ p_version (q_pkg q))) pv
               end)) (p_provides (q_pkg q'))) ps) ps.
 
+(* C09-F8: a member that only the tagged repository offers is needed by another member under a name it merely
+   PROVIDES (hypothesis pinned_by_own_name of c09_fixpoint_pinned_partial, negated, on the observed origin): the walk
+   that reaches it admits a tagged provider only when it happens to carry the tag *)
+Definition tagged_provider_of_virtual (ps : list opkg) : bool :=
+  existsb (fun y => q_tagged_only y &&
+    existsb (fun m => existsb (fun d =>
+      match d with
+      | String "!" _ => false
+      | _ => let c := resolve_constraint d in
+             negb (String.eqb (c_name c) (p_name (q_pkg y))) &&
+             existsb (fun prov => String.eqb (c_name (resolve_constraint prov)) (c_name c)) (p_provides (q_pkg y))
+      end) (q_deps m)) ps) ps.
+
 Definition relock_failure_tag (what : string) (U : list cand) (ps : list opkg) (lockl : list string) : string :=
   if unpinned_tagged ps lockl then "viol:fixpoint/unpinned-entry-for-package-from-tagged-repo"
+  else if tagged_provider_of_virtual ps then "viol:fixpoint/tagged-provider-reached-through-provided-name"
   else if negb (closed_b ps) then "viol:fixpoint/origin-resolution-not-closed"
   else if entry_admits_other U ps then "viol:fixpoint/entry-admits-other-package"
   else if member_excluded_by_member ps then "viol:fixpoint/member-excluded-by-conflict-entry-of-member"
@@ -284,7 +298,11 @@ Definition check_api (c : api_case) : list string :=
              "mismatch:lock-succeeds-where-resolution-fails"
   | Some res =>
       let archs := List.map (fun ap => (fst ap, List.map q_pkg (snd ap))) res in
-      let models := List.map (fun p => model_obs (lock_image_configuration id_ord id_ordp (e_originals c) p)) (perms archs) in
+      (* since fix 8c1f464 the architectures are visited in sorted order (goextract reads it from the loop:
+         lock_archs_order); were the loop a map range again, any order of the architectures would be a possible run *)
+      let models := if String.eqb lock_archs_order "sorted"
+                    then [model_obs (lock_image_configuration_now id_ord id_ordp (e_originals c) archs)]
+                    else List.map (fun p => model_obs (lock_image_configuration id_ord id_ordp (e_originals c) p)) (perms archs) in
       let inputs := List.map (fun ap => resolved_of (fst ap) (snd ap)) archs in
       tag_if (negb (forallb (fun o => existsb (fun m => match m with Some mo => uobs_eqb mo o | None => false end) models) (e_lock_runs c)))
              "mismatch:lock-image-configuration" ++
@@ -316,7 +334,10 @@ Record lockfile_case := {
   lf_pkgs : list lf_pkg
 }.
 Record build_case := {
-  b_arch : string; b_repo_changed : bool; b_listed : list (string * string);
+  b_arch : string; b_repo_changed : bool;
+  b_world : list string;                 (* contents.packages of the configuration, in file order *)
+  b_universe : list cand;                (* every package of every repository, this architecture *)
+  b_listed : list (string * string);
   b_locked_ok : bool; b_plain_ok : bool;
   b_locked_installed : list (string * string); b_plain_installed : list (string * string);
   b_locked_manifest : string; b_plain_manifest : string
@@ -365,7 +386,41 @@ Definition model_install (listed : list (string * string)) (arch : string) : res
   build_from_lock (fun i => Some (i_name i, i_url i))
     (List.map (fun nv => {| lp_name := fst nv; lp_url := snd nv; lp_version := snd nv; lp_arch := arch; lp_checksum := "Q1x" |}) listed) arch.
 
+(* where the two install orders come from (Model/LockBuild.v, c09_locked_vs_unlocked_install_order): lock.json lists
+   the architecture's packages in the order in which the sorted, duplicate-free REQUEST list resolves; the unlocked
+   build installs in the order in which the LOCK list (LockImageConfiguration over that one architecture) resolves.
+   Both through Model/Resolver.v on the scenario's universe. *)
+Definition rpkgs_of (U : list cand) (nv : list (string * string)) : list rpkg :=
+  List.map (fun x => {| p_name := fst x; p_version := snd x;
+                        p_provides := match find (fun k => String.eqb (k_name k) (fst x) && String.eqb (k_version k) (snd x)) U with
+                                      | Some k => k_provides k
+                                      | None => []
+                                      end |}) nv.
+Definition check_build_order (b : build_case) : list string :=
+  if b_repo_changed b then [] else
+  match model_relock (b_universe b) (LockBuild.world_of (b_world b)) with
+  | None => ["mismatch:build-order-model-panic-or-out-of-fuel"]
+  | Some None => tag_if (b_locked_ok b || b_plain_ok b) "mismatch:build-order-model-error-impl-ok"
+  | Some (Some nv) =>
+      tag_if (b_locked_ok b && negb (list_eqb nv_eqb nv (b_listed b))) "mismatch:lockfile-order-differs-from-model" ++
+      match lock_image_configuration_now id_ord id_ordp (b_world b) [(b_arch b, rpkgs_of (b_universe b) nv)] with
+      | Ok (bya, _) =>
+          match alookup (b_arch b) bya with
+          | None => []
+          | Some L =>
+              match model_relock (b_universe b) (LockBuild.world_of L) with
+              | Some (Some nv') => tag_if (b_plain_ok b && negb (list_eqb nv_eqb nv' (b_plain_installed b)))
+                                          "mismatch:unlocked-install-order-differs-from-model"
+              | Some None => tag_if (b_plain_ok b) "mismatch:unlocked-build-model-error-impl-ok"
+              | None => ["mismatch:build-order-model-panic-or-out-of-fuel"]
+              end
+          end
+      | _ => tag_if (b_plain_ok b) "mismatch:unlocked-build-model-error-impl-ok"
+      end
+  end.
+
 Definition check_build (b : build_case) : list string :=
+  check_build_order b ++
   tag_if (b_plain_ok b && negb (b_locked_ok b)) "viol:locked-build-fails" ++
   (if b_locked_ok b then
      tag_if (negb (same_members_b (b_locked_installed b) (b_listed b))) "viol:locked-build-installs-other-than-listed" ++
